@@ -5,6 +5,7 @@ from sa.engine.api import *
 from sa.rules._helpers_C import (assigned_locals, calls_local_lambda, is_empty_init, member_calls_on_local, naming_x, strip, unlock, unlocked_fn)
 
 UNITS = ["validation.cpp"]
+STATS_UNITS = ["kernel/coinstats.cpp"]
 EXPLANATION = ("MPT/guard rules on the three snapshot routines of validation.cpp, decided as truth-table implications from the dominating path "
                "conditions. ActivateSnapshot: AddChainstate (the only effect that makes the snapshot chainstate visible) is reached only if no "
                "snapshot chainstate exists yet, the metadata's base hash is an assumeutxo hash, the base block is in the index and not "
@@ -50,6 +51,7 @@ def check(ctx):
     activate(ctx, P)
     populate(ctx, P)
     background(ctx, P)
+    utxo_stats(ctx, ctx.program(STATS_UNITS))
 
 
 # --------------------------------------------------------------------------------------------------
@@ -281,6 +283,152 @@ def trailing_flag(ctx, P, f):
     ctx.ob("Populate/trailing-flag", "PROVENANCE", "the end-of-file flag starts false and becomes true only in the std::ios_base::failure handler of the "
            "one-byte probe read from the snapshot file", ok, "%s:%s" % (f.file, t.get("l")), None if ok else {"other_values": bad, "handler": h.get("ty")})
     return flag
+
+
+# --------------------------------------------------------------------------------------------------
+def utxo_stats(ctx, P):
+    """The commitment hash covers every coin of the database: kernel::ComputeUTXOStats accounts for every (key, coin) the cursor yields."""
+    allf = P.fns("kernel::ComputeUTXOStats")
+    disp = [f for f in allf if f.params and "CoinStatsHashType" in f.params[0]["ty"]]
+    work = [f for f in allf if f.params and "CoinStatsHashType" not in f.params[0]["ty"]]
+    if len(disp) != 1 or not work:
+        raise AnalysisBroken("kernel::ComputeUTXOStats: dispatcher / worker overloads not found")
+    d = ctx.used(disp[0])
+    # ---- dispatcher: HASH_SERIALIZED -> worker over a HashWriter on the same view
+    body = d
+    lam = [x[1] for _, e in all_exprs(d.body) for x in subexprs(e) if x[0] == "lambda"]
+    if len(lam) == 1 and len(P.fns(lam[0])) == 1:
+        body = P.fns(lam[0])[0]
+    calls = [s for s in sites(body, call_to("kernel::ComputeUTXOStats"), P)]
+    hs = []
+    for s in calls:
+        cg = [g for g in s.guards if g.kind == "case"]
+        if len(cg) == 1 and any(is_expr(v) and v[0] == "enum" and v[1].endswith("CoinStatsHashType::HASH_SERIALIZED") for v in cg[0].vals):
+            hs.append((s, cg[0]))
+    ok = len(hs) == 1 and len(hs[0][1].vals) == 1
+    if ok:
+        a = call_args(hs[0][0].expr)
+        decl = [st for st in stmts(body.body) if st.get("k") == "decl" and is_expr(a[0]) and a[0][0] == "local" and st.get("n") == a[0][1]]
+        ok = len(a) >= 2 and len(decl) == 1 and decl[0].get("ty") == "HashWriter" and a[1] == ["param", d.params[1]["n"]] and hs[0][0].stmt.get("k") == "ret"
+        ok = bool(ok) and show(hs[0][1].expr) == d.params[0]["n"]
+    ctx.ob("ComputeUTXOStats/dispatch", "PROVENANCE", "ComputeUTXOStats(HASH_SERIALIZED, view, ..) returns the result of the generic routine run with a fresh HashWriter over the "
+           "same view", ok, d.where)
+    w = [f for f in work if f.params[0]["ty"] == "HashWriter"]
+    if len(w) != 1:
+        raise AnalysisBroken("kernel::ComputeUTXOStats: HashWriter instantiation not found in the facts")
+    f = ctx.used(w[0])
+    subst = naming(f, P)
+    hobj = f.params[0]["n"]
+    ins = sites(f, lambda e: e[0] == "b" and e[1] == "=" and is_expr(e[2]) and e[2][0] == "idx" and is_expr(e[2][1]) and e[2][1][0] == "local", P)
+    ins = [s for s in ins if s.loops]
+    if len(ins) != 1:
+        raise AnalysisBroken("kernel::ComputeUTXOStats: the `outputs[key.n] = coin` insertion was not found (idiom changed)")
+    I = ins[0]
+    L = I.loops[0]
+    OUT = I.expr[2][1][1]
+    keyl, coinl = None, None
+    b = {}
+    if match(["idx", ["local", OUT], [".", ["local", V("k")], "COutPoint::n"]], I.expr[2], b) and strip(I.expr[3])[0] == "local":
+        keyl, coinl = b["k"], strip(I.expr[3])[1]
+    if keyl is None:
+        raise AnalysisBroken("kernel::ComputeUTXOStats: insertion is not outputs[<key>.n] = <coin>")
+    cur = None
+    if L.get("k") == "while" and is_expr(L.get("c")) and L["c"][0] in ("mcall", "vcall") and L["c"][1] == "CCoinsViewCursor::Valid":
+        cur = show(L["c"][2])
+    ok = cur is not None and not has_break(L.get("b"))
+    ctx.ob("ComputeUTXOStats/loop", "LADDER", "the statistics loop runs while the cursor is Valid() and contains no break (a `continue` is judged below: only after the entry was recorded)", ok,
+           "%s:%s" % (f.file, L.get("l")), {"loop": loop_key(L, subst)})
+    if cur is None:
+        return
+    GOT = {"KEY": "%s.GetKey(%s)" % (cur, keyl), "VAL": "%s.GetValue(%s)" % (cur, coinl)}
+
+    def inloop(site):
+        gs = [g for g in site.guards if g.line is not None and g.line >= L.get("l") and g.kind != "loop"]
+        return F.bind_atoms(F.mk_and([g.formula(subst) for g in gs]), GOT)
+
+    g, _, un = inloop(I)
+    ok = F.equivalent(g, F.parse("KEY && VAL"))
+    ctx.ob("ComputeUTXOStats/every-coin", "MPT", "inside the loop every (key, coin) successfully read from the cursor is inserted into the current group: the insertion's condition "
+           "is exactly GetKey(key) && GetValue(coin), with no further filter", ok, I.where, None if ok else {"condition": F.fshow(g), "unbound": un[:8]})
+    # read failure -> nullopt
+    rej = []
+    for e in exits(f, P, subst):
+        if L in e.loops:
+            gs = [x for x in e.guards if x.line is not None and x.line >= L.get("l") and x.kind != "loop"]
+            fm, _, _ = F.bind_atoms(F.mk_and([x.formula(subst) for x in gs]), GOT)
+            isnull = is_expr(e.value) and contains(["global", "std::nullopt"], e.value)
+            okx = isnull and F.implies(fm, F.parse("!(KEY && VAL)"))
+            ctx.ob("ComputeUTXOStats/read-failure@L%s" % e.line, "LADDER", "the loop is left early only with std::nullopt and only when a cursor read failed", okx,
+                   "%s:%s" % (f.file, e.line), None if okx else {"condition": F.fshow(fm), "value": show(e.value) if is_expr(e.value) else None})
+            rej.append(fm)
+    ok = F.implies(F.parse("!(KEY && VAL)"), F.mk_or(rej))
+    ctx.ob("ComputeUTXOStats/read-failure", "LADDER", "a failed GetKey/GetValue makes ComputeUTXOStats return std::nullopt (no partial hash is reported)", ok, f.where)
+    # advance
+    nx = [s for s in sites(f, lambda e: e[0] in ("mcall", "vcall") and e[1] == "CCoinsViewCursor::Next", P) if L in s.loops]
+    ok = len(nx) == 1 and F.equivalent(inloop(nx[0])[0], F.parse("KEY && VAL")) and show(nx[0].expr[2]) == cur and nx[0].line > I.line
+    ctx.ob("ComputeUTXOStats/advance", "LADDER", "the cursor advances exactly once per successfully read entry, after the entry was recorded", ok, f.where)
+    # a `continue` may only end an iteration whose entry was read, recorded and stepped over (anything earlier skips an entry)
+    conts = [s_ for s_ in stmt_sites(f, lambda st: st.get("k") == "continue", P) if L in s_.loops and s_.loops[-1] is L]
+    okc = all(len(nx) == 1 and s_.line > nx[0].line and s_.line > I.line and F.implies(inloop(s_)[0], F.parse("KEY && VAL")) for s_ in conts)
+    ctx.ob("ComputeUTXOStats/no-skip", "LADDER", "no `continue` ends an iteration before its entry was recorded and the cursor advanced (no entry can be skipped)", okc, f.where,
+           {"continues": [s_.line for s_ in conts]})
+    # group handling
+    ah = sites(f, call_to("kernel::ApplyHash"), P)
+    inl = [s for s in ah if L in s.loops]
+    post = [s for s in ah if not s.loops]
+    ok = len(inl) == 1 and len(post) == 1
+    prev = None
+    if ok:
+        a = call_args(inl[0].expr)
+        prev = show(a[1])
+        gi, _, _ = F.bind_atoms(inloop(inl[0])[0], {"EMPTY": "%s.empty()" % OUT, "SAME": ["%s.hash == %s" % (keyl, prev), "%s == %s.hash" % (prev, keyl)]})
+        ok = [show(x) for x in a] == [hobj, prev, OUT] and [show(x) for x in call_args(post[0].expr)] == [hobj, prev, OUT] and \
+            F.equivalent(gi, F.parse("KEY && VAL && !EMPTY && !SAME")) and inl[0].line < I.line
+        clr = [s for s in sites(f, lambda e: e[0] == "mcall" and e[1].endswith("::clear") and show(e[2]) == OUT, P) if L in s.loops]
+        ok = ok and len(clr) == 1 and F.equivalent(F.bind_atoms(inloop(clr[0])[0], {"EMPTY": "%s.empty()" % OUT, "SAME": ["%s.hash == %s" % (keyl, prev), "%s == %s.hash" % (prev, keyl)]})[0],
+                                                   F.parse("KEY && VAL && !EMPTY && !SAME")) and inl[0].line < clr[0].line < I.line
+        pk = [s for s in sites(f, lambda e: e[0] == "b" and e[1] == "=" and show(e[2]) == prev, P) if L in s.loops]
+        ok = ok and len(pk) == 1 and show(strip(pk[0].expr[3])) == "%s.hash" % keyl and F.equivalent(inloop(pk[0])[0], F.parse("KEY && VAL")) and pk[0].line > inl[0].line
+    ctx.ob("ComputeUTXOStats/groups", "LADDER", "a finished transaction group (txid changes, group not empty) is hashed with ApplyHash(hash_obj, previous txid, outputs) and cleared "
+           "before the next coin is recorded, and the previous txid follows every read key", bool(ok), f.where)
+    if post:
+        fm, _, un = F.bind_atoms(post[0].formula(subst), {"EMPTY": "%s.empty()" % OUT, "DONE": "done(loop@%s)" % L.get("l")})
+        own = F.mk_and([g_.formula(subst) for g_ in post[0].guards if g_.kind in ("if", "sc") and (g_.line or 0) > L.get("l")])
+        own, _, _ = F.bind_atoms(own, {"EMPTY": "%s.empty()" % OUT})
+        ok = F.implies(fm, F.parse("DONE")) and F.equivalent(own, F.parse("!EMPTY"))
+        ctx.ob("ComputeUTXOStats/last-group", "LADDER", "after the loop the last, still pending group is hashed whenever it is not empty", ok, post[0].where,
+               None if ok else {"condition": F.fshow(fm)})
+    fin = sites(f, call_to("kernel::FinalizeHash"), P)
+    okf = len(fin) == 1 and not fin[0].loops and [show(x) for x in call_args(fin[0].expr)][:1] == [hobj] and bool(post) and fin[0].line > post[0].line and \
+        not [g_ for g_ in fin[0].guards if g_.kind in ("if", "sc", "case")]
+    ctx.ob("ComputeUTXOStats/finalize", "ORDER", "the hash is finalised unconditionally after the loop and after the last group", okf, f.where)
+    for e in exits(f, P, subst):
+        if not e.loops and e.kind == "ret":
+            okr = F.implies(e.formula, F.atom("done(loop@%s)" % L.get("l"))) and bool(fin) and e.line > fin[0].line and is_expr(e.value) and not contains(["global", "std::nullopt"], e.value)
+            ctx.ob("ComputeUTXOStats/success@L%s" % e.line, "LADDER", "statistics are returned only after the cursor was exhausted and the hash finalised", okr, "%s:%s" % (f.file, e.line))
+    # ApplyHash hashes every element of the group
+    aps = [x for x in P.fns("kernel::ApplyHash") if x.params and x.params[0]["ty"].startswith("HashWriter")]
+    if len(aps) != 1:
+        raise AnalysisBroken("kernel::ApplyHash<HashWriter> not found in the facts")
+    ap = ctx.used(aps[0])
+    cs = sites(ap, call_to("kernel::ApplyCoinHash"), P)
+    ok = len(cs) == 1 and len(cs[0].loops) == 1 and not has_break(cs[0].loops[0].get("b")) and not any(st.get("k") == "continue" for st in stmts(cs[0].loops[0].get("b")))
+    if ok:
+        lp = cs[0].loops[0]
+        gs = [g_ for g_ in cs[0].guards if g_.kind in ("if", "sc", "post", "case") and (g_.line or 0) >= lp.get("l")]
+        rng = loop_key(lp, naming(ap, P))
+        ok = not [g_ for g_ in gs if g_.kind != "post"] and F.equivalent(F.mk_and([g_.formula(None) for g_ in gs]), F.T) and \
+            (rng == "each(%s)" % ap.params[2]["n"] or (lp.get("k") == "for" and show(strip(lp["init"].get("i"))) == "%s.begin()" % ap.params[2]["n"]
+                                                       and F.key(lp.get("c")) in ("%s != %s.end()" % (lp["init"]["n"], ap.params[2]["n"]), F.key(["b", "!=", ["local", lp["init"]["n"]], ["mcall", "std::map::end", ["param", ap.params[2]["n"]]]]))))
+    ctx.ob("ApplyHash/every-output", "LADDER", "ApplyHash feeds every element of the group to ApplyCoinHash (complete loop over the map, no condition)", bool(ok), ap.where)
+
+
+def loop_key(lp, subst):
+    from sa.engine.ladder import loop_range_key
+    try:
+        return loop_range_key(lp, subst)
+    except Exception:
+        return lp.get("k")
 
 
 # --------------------------------------------------------------------------------------------------
